@@ -1,6 +1,6 @@
-(* Preservation of WaitEvProofs.Inv by the waiter's events, the invariant theorem, and the facts the C11 theorems are
-   made of (second half of the proof; the first half, with the definitions and the producers' events, is
-   WaitEvProofs.v). *)
+(* Preservation of WaitEvProofs.Inv by the waiter's events (registration, SubEqual, Make, the two waits, the reset
+   loop, return).  Definitions: WaitEvProofs.v; producers' events: WaitEvProofsP.v; the invariant theorem and its
+   consequences: WaitEvProofsC.v. *)
 From Coq Require Import List Arith Bool Lia.
 Import ListNotations.
 From YV Require model.Handoff proofs.HandoffProofs.
@@ -512,22 +512,4 @@ Proof.
   - glob_w P G Ewp. splits; fin.
 Qed.
 
-Theorem inv_step s e s' : Inv s -> step s e = Some s' -> Inv s'.
-Proof.
-  intros I H. destruct e.
-  - eapply inv_step_set; eauto.
-  - eapply inv_step_xchg; eauto.
-  - eapply inv_step_subp; eauto.
-  - eapply inv_step_plock; eauto.
-  - eapply inv_step_pnotify; eauto.
-  - eapply inv_step_punlock; eauto.
-  - eapply inv_step_ldw; eauto.
-  - eapply inv_step_casw; eauto.
-  - eapply inv_step_subw; eauto.
-  - eapply inv_step_wlock; eauto.
-  - eapply inv_step_waitenter; eauto.
-  - eapply inv_step_timeout; eauto.
-  - eapply inv_step_waitret; eauto.
-  - eapply inv_step_wunlock; eauto.
-  - eapply inv_step_ret; eauto.
-Qed.
+
